@@ -25,7 +25,7 @@ PROP = Prop(
                                                           REGISTRY['DocumentTemplate.DT_String.String.cook#C01']]
     # the sequence handed to dtml-in belongs to the caller (or to the template's defaults): sorting and reversing work on copies
     + [REGISTRY[k] for k in SORT + REV],
-    claims=['*::C13.*input_not_modified', '*::frame.*', '*::C17.*', '*::C01.cook.*', 'frame.write.*', 'frame.publish.cook_is_one_locked_region', '*initvars::C02.*', INT_PARAM + '::frame.*'],
+    claims=['*::C13.*input_not_modified', '*::frame.*', '*::C17.*', '*::C01.cook.*', 'frame.write.*', 'frame.publish.cook_is_one_locked_region', '*::frame.publish.*', '*initvars::C02.*', INT_PARAM + '::frame.*'],
     structural=[write_sites, publication],
     native_default=native_c17.native_for,
     bounded=[_bounded],
